@@ -19,6 +19,8 @@ from pathlib import Path
 from vp import ref_argv as R
 
 NPROC = int(os.environ.get("VP_NPROC", "16"))
+# development knob only (mutation runs on a loaded machine): VP_QUICK_N=<cases> shrinks the quick tier
+QUICK_N = {p: int(os.environ["VP_QUICK_N"]) for p in ("C22", "C23", "C24")} if os.environ.get("VP_QUICK_N") else {}
 DUMPARGV = str(Path(__file__).resolve().parent / "fakes" / "dumpargv")
 
 ALPHABET = ["a", "b", "Z", "7", " ", "\t", "'", '"', "\\", "$", "*", ";", "é", "-", "x"]
